@@ -2056,3 +2056,204 @@ impl Scenario for QueueShutdown {
         "each run: history over {append, clone+drop clone, flush await/cancel, sleep} on 1-3 producers + main, typed or boxed; ending = drop of the join handle (after or racing with the producers), or forget() followed by the drop of the last handle and a settle time of 3 flush intervals; late appends / flushes afterwards; 12% of the drop runs with a 1us shutdown timeout against a slow stream. non-trivial = >= 2 threads and >= 1 preemption; distinct = distinct (context-switch signature, producer op lists)"
     }
 }
+
+// ------------------------------------------------------------------------------------------
+// C01 — two queues chained through an entry's destructor
+// ------------------------------------------------------------------------------------------
+
+/// An entry of queue A whose destructor appends a child entry to queue B (a unit-of-work entry
+/// that owns another one). It is dropped wherever A lets go of it: displaced inside another
+/// thread's append, after it was written on A's writer thread, or with the queue at shutdown.
+pub struct ChainEntry {
+    id: u64,
+    child: u64,
+    b: BackgroundQueue<IdEntry>,
+    hist: History,
+}
+
+impl metrique_writer::Entry for ChainEntry {
+    fn write<'a>(&'a self, w: &mut impl metrique_writer::EntryWriter<'a>) {
+        w.value("id", &self.id);
+    }
+}
+
+impl Drop for ChainEntry {
+    fn drop(&mut self) {
+        self.hist.log(K::AppendBegin { id: self.child });
+        let r = std::panic::catch_unwind(std::panic::AssertUnwindSafe(|| self.b.append(IdEntry(self.child))));
+        self.hist.log(K::AppendEnd { id: self.child, blocked: false, panicked: r.is_err() });
+    }
+}
+
+fn chain_main(plan: &Value, hist: History) {
+    let (sb, _cb) = RecStream::new(1, hist.clone(), -1);
+    let (qb, jb_) = BackgroundQueueBuilder::new()
+        .capacity(4096)
+        .thread_name("bgq-b")
+        .flush_interval(Duration::from_nanos(ju(plan, "flush_interval_ns", 1_000_000).max(1_000)))
+        .shutdown_timeout(Duration::from_secs(1_000_000))
+        .build::<IdEntry>(sb);
+    let (sa, ca) = RecStream::new(0, hist.clone(), ji(plan, "gate", 0));
+    let (qa, ja_) = BackgroundQueueBuilder::new()
+        .capacity(ju(plan, "capacity", 2).max(1) as usize)
+        .thread_name("bgq-a")
+        .flush_interval(Duration::from_nanos(ju(plan, "flush_interval_ns", 1_000_000).max(1_000)))
+        .shutdown_timeout(Duration::from_secs(1_000_000))
+        .build::<ChainEntry>(sa);
+    let mut ts = vec![];
+    for (t, n) in ja(plan, "producers").iter().enumerate() {
+        let n = n.as_u64().unwrap_or(0);
+        let (qa2, qb2, h2) = (qa.clone(), qb.clone(), hist.clone());
+        ts.push(detsim::thread::spawn_named(&format!("p{}", t + 1), move || {
+            for s in 0..n {
+                let id = entry_id(t as u64 + 1, s);
+                // children live in their own id space: 500 + producer
+                let e = ChainEntry { id, child: entry_id(500 + t as u64 + 1, s), b: qb2.clone(), hist: h2.clone() };
+                h2.log(K::Note(format!("a_append {id}")));
+                qa2.append(e);
+                detsim::yield_point();
+            }
+        }));
+    }
+    for op in ja(plan, "main_ops") {
+        match js(op, "op", "") {
+            "sleep" => detsim::sleep_ns(ju(op, "ns", 0)),
+            "gate" => ca.gate.add(ji(op, "n", 1)),
+            _ => detsim::yield_point(),
+        }
+    }
+    for t in ts {
+        let _ = t.join();
+    }
+    ca.gate.open_forever();
+    drop(ja_);
+    drop(qa);
+    // every A entry has been dropped by now, so every child has been appended to B
+    hist.log(K::DropHandleBegin);
+    drop(jb_);
+    hist.log(K::DropHandleEnd { writer_finished: true });
+    drop(qb);
+}
+
+fn check_chain(plan: &Value, h: &[Ev]) -> Option<Violation> {
+    let mut want: BTreeMap<u64, ()> = BTreeMap::new();
+    for (t, n) in ja(plan, "producers").iter().enumerate() {
+        for s in 0..n.as_u64().unwrap_or(0) {
+            want.insert(entry_id(500 + t as u64 + 1, s), ());
+        }
+    }
+    let mut seen_b: BTreeMap<u64, u32> = BTreeMap::new();
+    let mut seen_a: BTreeMap<u64, u32> = BTreeMap::new();
+    for e in h {
+        match &e.k {
+            K::NextBegin { stream: 1, id: Some(id), report: false } => *seen_b.entry(*id).or_insert(0) += 1,
+            K::NextBegin { stream: 0, id: Some(id), report: false } => *seen_a.entry(*id).or_insert(0) += 1,
+            K::AppendEnd { id, panicked: true, .. } => return Some(Violation::new("append_panicked", format!("append of {} panicked", fmt_id(*id)))),
+            _ => {}
+        }
+    }
+    if let Some((id, n)) = seen_a.iter().chain(seen_b.iter()).find(|(_, n)| **n > 1) {
+        return Some(Violation::new("duplicate_delivery", format!("entry {} was handed to a stream {n} times", fmt_id(*id))));
+    }
+    for id in want.keys() {
+        if !seen_b.contains_key(id) {
+            let appended = h.iter().any(|e| matches!(&e.k, K::AppendEnd { id: i, .. } if i == id));
+            return Some(Violation::new(
+                "lost_entry",
+                format!("entry {} was appended to the second queue (neither full nor shut down) from inside the destructor of an entry of the first queue, but never reached its stream (append recorded: {appended})", fmt_id(*id)),
+            ));
+        }
+    }
+    None
+}
+
+pub struct QueueChain;
+
+impl Scenario for QueueChain {
+    fn name(&self) -> &'static str {
+        "queue_chain"
+    }
+    fn property(&self) -> &'static str {
+        "C01"
+    }
+    fn weight(&self, _t: Tier) -> u32 {
+        1
+    }
+    fn generate(&self, rng: &mut Rng, _tier: Tier) -> Value {
+        let np = 1 + rng.below(2);
+        let cap = 1 + rng.below(3);
+        let producers: Vec<u64> = (0..np).map(|_| rng.below(4 * cap + 6)).collect();
+        let total: u64 = producers.iter().sum();
+        let mut main_ops = vec![];
+        for _ in 0..rng.below(4) {
+            match rng.below(2) {
+                0 => main_ops.push(json!({"op":"sleep","ns": 1_000 * (1 + rng.below(5_000))})),
+                _ => main_ops.push(json!({"op":"gate","n": 1 + rng.below(cap + 2)})),
+            }
+        }
+        let sched = gen_sched(rng, &SchedOpts { est_choices: 60 + total * 20, threads: np + 2, jump_max_ns: 50_000_000, stall_clock_max_ns: 20_000_000, max_steps: 150_000 });
+        json!({"scenario": "queue_chain", "sched": sched, "capacity": cap, "gate": *rng.pick(&[0i64, 0, 1, -1]), "flush_interval_ns": *rng.pick(&[2_000_000u64, 50_000_000, 1_000_000_000]), "producers": producers, "main_ops": main_ops})
+    }
+    fn run(&self, plan: &Value) -> Report {
+        let sched = sched_from_plan(plan);
+        let hist = History::new();
+        let (h2, p2) = (hist.clone(), plan.clone());
+        let (out, _) = detsim::run(sched, move || chain_main(&p2, h2));
+        let h = hist.snapshot();
+        let mut r = Report::default();
+        r.nontrivial = out.threads >= 2 && out.preemptions >= 1;
+        r.case_sig = mix(out.sig, hash_value(&json!([plan.get("producers"), plan.get("capacity"), plan.get("main_ops")])));
+        let failure = out.failure.clone();
+        let mp = out.main_panic.clone();
+        absorb_outcome(&mut r, out);
+        // where the chained entries were dropped
+        let a_writer = detsim_thread_of(&h, 0);
+        let mut displaced = 0u64;
+        for e in &h {
+            if let K::AppendBegin { id } = &e.k {
+                if id_thread(*id) >= 500 && Some(e.tid) != a_writer {
+                    displaced += 1;
+                }
+            }
+        }
+        r.probe("child_appended_inside_another_append", displaced);
+        r.fault("capacity_pressure", displaced);
+        r.states = vec![mix(displaced.min(8), (h.len() as u64 / 16).min(16))];
+        // (a run that hit the step budget or aborted has no complete history to judge)
+        if failure.is_none() && mp.is_none() {
+            r.violation = check_chain(plan, &h);
+        }
+        r.sample = Some(json!({"producers": plan.get("producers"), "capacity": plan.get("capacity"), "history": history_json(&h, 50)}));
+        if r.violation.is_none() {
+            match failure {
+                None => {}
+                Some(f @ detsim::Failure::Deadlock { .. }) => r.violation = Some(Violation::new("deadlock", format!("{f:?}"))),
+                Some(detsim::Failure::StepLimit { .. }) => r.inconclusive = true,
+                Some(f) => r.harness_error = Some(format!("simulation failed: {f:?}")),
+            }
+            if let Some(p) = mp {
+                if r.violation.is_none() {
+                    match crate::driver::classify_uncaught_panic(&p) {
+                        Ok(v) => r.violation = Some(v),
+                        Err(e) => r.harness_error = Some(e),
+                    }
+                }
+            }
+        }
+        r
+    }
+    fn probes(&self) -> Vec<&'static str> {
+        vec!["child_appended_inside_another_append"]
+    }
+    fn components(&self) -> Value {
+        queue_components()
+    }
+    fn rule(&self) -> &'static str {
+        "each run: queue A (capacity 1-3, gated stream, so it overflows) carries entries whose destructor appends a child entry to queue B (large, never full); 1-2 producers; the children are appended from inside other threads' append() calls (displacement), from A's writer thread, or at A's shutdown. Oracle: B's stream receives every child exactly once. non-trivial / distinct as queue_fifo"
+    }
+}
+
+/// The simulated thread that made the `next` calls of stream `no` (its writer), if any.
+fn detsim_thread_of(h: &[Ev], no: u32) -> Option<usize> {
+    h.iter().find_map(|e| if let K::NextBegin { stream, .. } = &e.k { if *stream == no { Some(e.tid) } else { None } } else { None })
+}
